@@ -134,7 +134,8 @@ def add_number(reg):
     reg.add(Contract(N + 'bytes_to_long', params={'s': 'bytes'}, result='int',
                      ensures={'value': 'result == be(s)',
                               'low32': 'impl(len(s) >= 4, result % 4294967296 == spec.aead1.be4(s[len(s) - 4:]))',   # int(X) mod 2^32 = int(LSB_32(X))
-                              'inverse': 'spec.aead1.ibe(result, len(s)) == bytes(s)'},                           # [int(X)]_len(X) = X
+                              'inverse': 'spec.aead1.ibe(result, len(s)) == bytes(s)',                            # [int(X)]_len(X) = X
+                              'range': 'conj(result >= 0, impl(len(s) == 8, result < 2**64), impl(len(s) == 16, result < 2**128))'},
                      pure=True, assumed='bounded: bounded/bigint.py bytes_to_long against int.from_bytes'))
 
 
